@@ -562,7 +562,15 @@ def step (ms : MState) (op : String) (args impl : List String) : MState × Pred 
     match slot? ms slot with
     | some (some h) => ({ ms with store := if implOk impl then s.setAttr h.obj "ds:shape" shape else s }, .skip)
     | _ => (ms, .skip)
-  | "da_fill", [slot, vals] =>
+  | "da_append", [slot, vals] | "da_appends", [slot, vals] =>
+    match slot? ms slot with
+    | some (some h) =>
+      let shape' : String := match (parseList (attrTok s h.obj "ds:shape")).map (·.map String.toNat?) with
+        | some [some n] => fmtList [toString (n + ((parseList vals).getD []).length)]
+        | _ => "?"
+      ({ ms with store := if implOk impl then s.setAttr h.obj "ds:shape" shape' else s }, .skip)
+    | _ => (ms, .skip)
+  | "da_fill", [slot, vals] | "da_fills", [slot, vals] =>
     match slot? ms slot with
     | some (some h) => ({ ms with store := if implOk impl then s.setAttr h.obj "ds:shape" (fmtList [toString ((parseList vals).getD []).length]) else s }, .skip)
     | _ => (ms, .skip)
